@@ -23,6 +23,11 @@ pub enum Op {
     CompareExchangeWeak,
     FetchAdd,
     FetchSub,
+    /// An attempt to take the lock of the lock-based strategy for reading / for writing (the
+    /// after-hook is told whether it succeeded), and its release (reported before it happens).
+    LockRead,
+    LockWrite,
+    Unlock,
 }
 
 #[derive(Copy, Clone, Debug)]
@@ -72,6 +77,89 @@ fn after(e: &Event, val: usize, ok: bool) {
     if f != 0 {
         let f: After = unsafe { core::mem::transmute(f) };
         f(e, val, ok)
+    }
+}
+
+/// The blocking lock operations of the lock-based strategy, made cooperative: the lock is std's
+/// own, but it is taken by `try_read`/`try_write` in a loop that passes through the before-hook
+/// ahead of every attempt (a scheduling point, so that a deterministic scheduler can run the
+/// holder), and its release is announced through the after-hook just before it happens.
+pub mod lock {
+    use super::{after, before, Event, Op};
+    use core::panic::Location;
+    use core::sync::atomic::Ordering;
+    use std::sync::{RwLock, RwLockReadGuard, RwLockWriteGuard, TryLockError};
+
+    #[track_caller]
+    fn ev(op: Op, l: &RwLock<()>) -> Event {
+        let loc = Location::caller();
+        Event {
+            file: loc.file(),
+            line: loc.line(),
+            col: loc.column(),
+            op,
+            addr: l as *const _ as usize,
+            ord: Ordering::SeqCst,
+            ord_fail: None,
+            arg: 0,
+            arg2: 0,
+        }
+    }
+
+    pub struct Read<'a>(Option<RwLockReadGuard<'a, ()>>, Event);
+    pub struct Write<'a>(Option<RwLockWriteGuard<'a, ()>>, Event);
+
+    impl Drop for Read<'_> {
+        fn drop(&mut self) {
+            after(&self.1, 0, true);
+            self.0.take();
+        }
+    }
+    impl Drop for Write<'_> {
+        fn drop(&mut self) {
+            after(&self.1, 0, true);
+            self.0.take();
+        }
+    }
+
+    #[track_caller]
+    pub fn read(l: &RwLock<()>) -> Read<'_> {
+        let e = ev(Op::LockRead, l);
+        let u = ev(Op::Unlock, l);
+        loop {
+            before(&e);
+            match l.try_read() {
+                Ok(g) => {
+                    after(&e, 1, true);
+                    return Read(Some(g), u);
+                }
+                Err(TryLockError::WouldBlock) => after(&e, 0, false),
+                Err(TryLockError::Poisoned(p)) => {
+                    after(&e, 1, true);
+                    return Read(Some(p.into_inner()), u);
+                }
+            }
+        }
+    }
+
+    #[track_caller]
+    pub fn write(l: &RwLock<()>) -> Write<'_> {
+        let e = ev(Op::LockWrite, l);
+        let u = ev(Op::Unlock, l);
+        loop {
+            before(&e);
+            match l.try_write() {
+                Ok(g) => {
+                    after(&e, 1, true);
+                    return Write(Some(g), u);
+                }
+                Err(TryLockError::WouldBlock) => after(&e, 0, false),
+                Err(TryLockError::Poisoned(p)) => {
+                    after(&e, 1, true);
+                    return Write(Some(p.into_inner()), u);
+                }
+            }
+        }
     }
 }
 
